@@ -269,6 +269,10 @@ pub struct ScriptedWriter<'a> {
     /// peer: TLS, a BufWriter over a slow socket); 0 = flush completes at once
     pub flush_pending: u8,
     flush_waits: u8,
+    /// once a write has failed (fault or zero-length write), flush fails with this kind (a socket whose first failing
+    /// call reports the reset and every later call a broken pipe; a buffering layer that writes inside flush)
+    pub flush_fails_after_fault: Option<io::ErrorKind>,
+    faulted: bool,
 }
 
 impl<'a> ScriptedWriter<'a> {
@@ -288,6 +292,8 @@ impl<'a> ScriptedWriter<'a> {
             fault_shape: 0,
             flush_pending: 0,
             flush_waits: 0,
+            flush_fails_after_fault: None,
+            faulted: false,
         }
     }
     fn do_write_vectored(&mut self, bufs: &[io::IoSlice<'_>]) -> Result<Option<usize>, io::Error> {
@@ -315,11 +321,13 @@ impl<'a> ScriptedWriter<'a> {
         }
         if let Some((fp, kind)) = self.fault {
             if self.out.len() >= fp {
+                self.faulted = true;
                 return Err(make_err(kind, self.fault_shape));
             }
         }
         if let Some(z) = self.zero_at {
             if self.out.len() >= z {
+                self.faulted = true;
                 return Ok(Some(0));
             }
         }
@@ -380,6 +388,11 @@ impl<'a> AsyncWrite for ScriptedWriter<'a> {
         if me.calls > me.max_calls {
             panic!("MQV-SPIN sink flushed / written {} times", me.calls);
         }
+        if me.faulted {
+            if let Some(k) = me.flush_fails_after_fault {
+                return Poll::Ready(Err(io::Error::new(k, "flush after a failed write")));
+            }
+        }
         if me.flush_waits < me.flush_pending {
             me.flush_waits += 1;
             cx.waker().wake_by_ref();
@@ -417,6 +430,11 @@ impl<'a> io::Write for ScriptedWriter<'a> {
         }
     }
     fn flush(&mut self) -> io::Result<()> {
+        if self.faulted {
+            if let Some(k) = self.flush_fails_after_fault {
+                return Err(io::Error::new(k, "flush after a failed write"));
+            }
+        }
         self.flushes += 1;
         Ok(())
     }
